@@ -133,3 +133,16 @@ func resumesRead(sa flows.SessionAssets, data []byte) (res flows.Resume, err err
 	}()
 	return resumes.ReadResume(sa, data, func(assets.Reference, error) {})
 }
+
+// Known nondeterminism in a dependency (gocommon dates.parseError reverse-maps the Go layout element through a Go map, and
+// both "t" and "tt" map to "15"): the error text of parse_datetime / parse_time / format arguments names 't' or 'tt'
+// depending on map iteration order. C08 reports it (known finding KF-C08-01); the other differential monitors (C02, C09,
+// C10) normalise it away so that they judge only what their own statement is about.
+var reKnownNondet = regexp.MustCompile(`(cannot parse '[^']*' as ')tt?(')`)
+
+func normKnownNondet(s string) string {
+	if !strings.Contains(s, "cannot parse '") {
+		return s
+	}
+	return reKnownNondet.ReplaceAllString(s, "${1}t|tt${2}")
+}
